@@ -149,19 +149,28 @@ Fixpoint next_is_top (h : hist) : bool :=
     next_is_top t
   | _ => false
   end.
+Definition retries_at_once (items : list item) (s : N) : bool :=
+  existsb (fun sc => (ss_id sc =? s) && match ss_retry sc with Some (_, None) => true | _ => false end)
+          (flat_map sf_scens (feature_items items)).
+(* `retrying`: scenarios whose last attempt failed with retries left and no delay — their next attempt re-entered the
+   queue before that Finished was emitted and is ready at once *)
 Fixpoint fills_walk (k : option nat) (items : list item) (seen : hist) (inflight : list N) (started : list N)
-                    (pending : nat) (tripped : bool) (ff : bool) (h : hist) : bool :=
+                    (retrying : list N) (pending : nat) (tripped : bool) (ff : bool) (h : hist) : bool :=
   match h with
   | [] => true
   | (r, tm) :: t =>
     let seen' := seen ++ [(r, tm)] in
     match r with
     | HEv (EvScen _ _ s _ ScStarted) =>
-      fills_walk k items seen' (s :: inflight) (s :: started) (pred pending) tripped ff t
+      fills_walk k items seen' (s :: inflight) (s :: started) (filter (fun x => negb (x =? s)) retrying)
+                 (pred pending) tripped ff t
     | HEv (EvScen _ _ s rt ScFinished) =>
       let evs := flat_map (fun x => match x with EvScen _ _ s' rt' e => if (s' =? s) && retr_eqb rt rt' then [e] else [] | _ => [] end)
                           (events_of seen') in
-      fills_walk k items seen' (filter (fun x => negb (x =? s)) inflight) started pending
+      let again := attempt_failed evs && match rt with Some (_, l) => negb (l =? 0) | None => false end
+                   && retries_at_once items s in
+      fills_walk k items seen' (filter (fun x => negb (x =? s)) inflight) started
+                 (if again then s :: retrying else retrying) pending
                  (tripped || (ff && is_final_failure evs rt)) ff t
     | HTop b =>
       (* judged at the LAST of a run of consecutive loop turns (attempts that completed within one poll are
@@ -172,13 +181,13 @@ Fixpoint fills_walk (k : option nat) (items : list item) (seen : hist) (inflight
       let last := negb (next_is_top t) in
       (if last && ltK (length inflight + pending') k && negb tripped then
          let scs := flat_map sf_scens (ingested items seen') in
-         let waiting := filter (fun sc => negb (memN (ss_id sc) started)) scs in
+         let waiting := filter (fun sc => negb (memN (ss_id sc) started) || memN (ss_id sc) retrying) scs in
          let truly := (length waiting - pending')%nat in
          Nat.eqb truly 0
          || (if b =? 0 then Nat.leb truly (length (filter ss_serial waiting)) else negb (is_nil (filter ss_serial scs)))
        else true)
-      && fills_walk k items seen' inflight started pending' tripped ff t
-    | _ => fills_walk k items seen' inflight started pending tripped ff t
+      && fills_walk k items seen' inflight started retrying pending' tripped ff t
+    | _ => fills_walk k items seen' inflight started retrying pending tripped ff t
     end
   end.
 
@@ -200,7 +209,7 @@ Fixpoint turn_walk (unseen : bool) (h : hist) : bool :=
 Definition strip_passthrough (es : list ev) : list ev := es.
 Definition c06_ok (k : option nat) (ff : bool) (items : list item) (h : hist) : bool :=
   c06_walk k [] [] h
-  && fills_walk k items [] [] [] 0 false ff h
+  && fills_walk k items [] [] [] [] 0 false ff h
   && turn_walk false h
   (* events of an attempt lie between its Started and Finished (contract), so with a limit of 1 the bound
      above already says that attempts run strictly one after another and never interleave *)
